@@ -424,6 +424,7 @@ impl Verdict {
         );
         ev.write();
         if self.violations.is_empty() {
+            let _ = std::fs::remove_dir_all(Path::new(VERIF).join("replays").join(&self.prop));
             println!(
                 "OK property={} tier={} wall={:.1}s",
                 self.prop,
